@@ -831,9 +831,14 @@ impl VirtualFileSystem for Memfs {
     /// assert_vfs_read_all!(vfs, &file, "foobar 1foobar 2");
     /// ```
     fn append_all<T: AsRef<Path>, U: AsRef<[u8]>>(&self, path: T, data: U) -> RvResult<()> {
-        let mut f = self.append(path)?;
-        f.write_all(data.as_ref())?;
-        f.flush()?;
+        let mut guard = self.write_guard();
+
+        // Create the file if needed and extend its data within a single critical section
+        let path = self._abs(&guard, path)?;
+        self._add(&mut guard, MemfsEntry::opts(&path).file().build())?;
+        if let Some(f) = guard.get_file_mut(&path) {
+            f.data.extend_from_slice(data.as_ref());
+        }
         Ok(())
     }
 
